@@ -6,7 +6,7 @@ CONFIGS = {
     "dbg": {"features": "std", "profile": "release"},
     # shipped behaviour: assertions off, only external oracles
     "rel": {"features": "std", "profile": "rel"},
-    # tracked element of 32 bytes instead of 16: element-size thresholds inside the crate
+    # tracked element of 128 bytes instead of 16: element-size thresholds inside the crate
     "dbg-big": {"features": "std,big_elem", "profile": "release"},
     "eio-both": {"features": "std,eio,eioa", "profile": "release"},
     "eio": {"features": "std,eio", "profile": "release"},
@@ -98,7 +98,7 @@ for _p, _x in (("C01", "io"), ("C01", "zst"), ("C03", "zst"), ("C09", "io"), ("C
 for _p, _x in (("C06", "io"), ("C09", "zst"), ("C12", "zst"), ("C13", "zst"), ("C20", "io")):
     PLANS[_p]["quick"].append({"cfg": "dbg", "prof": _p + _x, "runs": 100_000})
     PLANS[_p]["thorough"] += [{"cfg": c, "prof": _p + _x, "runs": 4_000_000} for c in ("dbg", "rel")]
-# 32-byte elements
+# 128-byte elements
 for _p in ("C01", "C03", "C05", "C06", "C09", "C10", "C12", "C20"):
     PLANS[_p]["quick"].append({"cfg": "dbg-big", "prof": _p, "runs": 100_000})
     PLANS[_p]["thorough"].append({"cfg": "dbg-big", "prof": _p, "runs": 5_000_000})
